@@ -177,6 +177,11 @@ where
                 Ok(Some(nz)) if !lz => ex.produce("NonZero::new(Limb)", "any", Kind::NzLimb, vec![nz.as_ref().0], inp.clone()),
                 r => ex.reject("NonZero::new(Limb) on zero", "any", r.map(|o| o.is_none() && lz), false, inp.clone()),
             }
+            // the panicking accessor of the option: a value for a non-zero limb, the documented panic for zero
+            match guard(|| la.to_nz().expect("nz")) {
+                Ok(nz) => ex.produce("ConstCtOption<NonZero<Limb>>::expect", "any", Kind::NzLimb, vec![nz.as_ref().0], inp.clone()),
+                Err(m) => ex.reject("ConstCtOption<NonZero<Limb>>::expect on zero", "any", Err(m), lz, inp.clone()),
+            }
             match guard(|| Option::<NonZero<Limb>>::from(la.to_nz())) {
                 Ok(Some(nz)) if !lz => ex.produce("Limb::to_nz", "any", Kind::NzLimb, vec![nz.as_ref().0], inp.clone()),
                 r => ex.reject("Limb::to_nz on zero", "any", r.map(|o| o.is_none() && lz), false, inp.clone()),
